@@ -477,7 +477,7 @@ def run(chk):
     common.quiet_trackpy()
     chk.coq()
     rng = chk.rng
-    n = 180 if chk.tier == 'quick' else 2500
+    n = 150 if chk.tier == 'quick' else 1500
     cases, terms, results = [], [], []
     todo = [resolve_symbolic(c) for c in corpus()]
     for k in range(n):
@@ -527,7 +527,7 @@ def run(chk):
         cj = case_json(case); cj['image'] = dict(dtype=cj['image']['dtype'], shape=cj['image']['shape'], data='(omitted)')
         chk.sample(cj)
     # where_close directly
-    nw = 400 if chk.tier == 'quick' else 8000
+    nw = 300 if chk.tier == 'quick' else 6000
     wcs, wterms = [], []
     for k in range(nw):
         w = c08gen.gen_wc(rng, chk.tier)
